@@ -16,9 +16,12 @@ from numpy.typing import ArrayLike
 from jax2onnx.converter.typing_support import LoweringContextProtocol
 from jax2onnx.plugins._patching import AssignSpec, MonkeyPatchSpec
 from jax2onnx.plugins._post_check_onnx_graph import expect_graph as EG
-from jax2onnx.plugins.jax.nn._builder_utils import register_unary_elementwise_batch_rule
+from jax2onnx.plugins.jax.nn._builder_utils import (
+    lower_scaled_exp_linear_in_double,
+    needs_double_parameters,
+    register_unary_elementwise_batch_rule,
+)
 from jax2onnx.plugins.plugin_system import PrimitiveLeafPlugin, register_primitive
-
 
 _HARD_SIGMOID_PRIM: Final[Primitive] = Primitive("jax.nn.hard_sigmoid")
 _HARD_SIGMOID_PRIM.multiple_results = False
@@ -71,6 +74,17 @@ class HardSigmoidPlugin(PrimitiveLeafPlugin):
         return ShapedArray(x.shape, x.dtype)
 
     def lower(self, ctx: LoweringContextProtocol, eqn: JaxprEqn) -> None:
+        if needs_double_parameters(ctx, eqn, 1.0 / 6.0):
+            lower_scaled_exp_linear_in_double(
+                ctx,
+                eqn,
+                kind="hard_sigmoid",
+                alpha=1.0 / 6.0,
+                beta=0.5,
+                input_hint="hard_sigmoid_in",
+                output_hint="hard_sigmoid_out",
+            )
+            return
         x_var = eqn.invars[0]
         out_var = eqn.outvars[0]
 
